@@ -49,3 +49,13 @@ check("C20",
       "ClampBase.get_params (scipy minimiser) is replaced by its exact-root contract; margins: 2*TOL / TOL/2",
       "symbolic execution of the real Python code with z3 (symx), both sides of each boundary symbolic, concrete replay",
       "DESIGN.md 4/C20")
+check("C17",
+      "Bounded symbolic execution of LineClamp, PlaneClamp, RadialClamp, CurveClamp (LineCurve, DiscreteCurve), "
+      "ParametricSurfaceClamp, FreeClamp (construction + update_params with arbitrary symbolic parameters) and "
+      "TranslationLink, RotationLink, SymmetryLink (construction, one or two leader moves, update) with symbolic "
+      "positions, directions, origins; z3 shows manifold membership / the follower relation / leader untouched.",
+      "clause 1 (a fresh clamp reports its creation position) is outside: scipy's minimiser is replaced by its exact-root "
+      "contract; np.random.random -> arbitrary vector; rotation-link leader moves are pinned rational rotations about the "
+      "link axis; radial clamp axes pinned; arccos/cos/sin as uninterpreted functions with inverse/Pythagorean axioms",
+      "symbolic execution of the real Python code with z3 (symx), concrete replay",
+      "DESIGN.md 4/C17")
